@@ -86,8 +86,11 @@ def real_run(code, types, values, env):
     from pytezos.michelson.types.base import MichelsonType
     ctx = make_context(env)
     stack = MichelsonStack()
-    for ty, v in reversed(list(zip(types, values))):
-        stack.push(MichelsonType.match(ty).from_micheline_value(v))     # harness precondition: must not fail
+    for i, (ty, v) in reversed(list(enumerate(zip(types, values)))):
+        try:
+            stack.push(MichelsonType.match(ty).from_micheline_value(v))
+        except Exception as e:   # noqa   the interpreter cannot even represent this (well-typed) input value
+            return ('input-error', i, [type(e).__name__] + [str(a)[:120] for a in e.args][-3:])
     prog = MichelineSequence.match(code)
     del _PROBE[:]
     try:
@@ -138,6 +141,23 @@ def tstr(t, depth=4):
     if depth <= 0:
         return '_'
     return t[0] + ' ' + ' '.join(tstr(a, depth - 1) if len(a) == 1 else '(' + tstr(a, depth - 1) + ')' for a in t[1:])
+
+
+_ARGN = {'map': ('key', 'value'), 'big_map': ('key', 'value'), 'list': ('elt',), 'set': ('elt',), 'option': ('some',),
+         'or': ('left', 'right'), 'pair': ('car', 'cdr'), 'lambda': ('arg', 'ret')}
+
+
+def type_diff(got, want, path=''):
+    """first position where two reference types differ: 'map.key: got int want pair int int'"""
+    if got is None:
+        return f'{path or "root"}: not a type'
+    if got[0] != want[0] or len(got) != len(want):
+        return f'{path or "root"}: got {tstr(got, 2)} want {tstr(want, 2)}'
+    for i, (a, b) in enumerate(zip(got[1:], want[1:])):
+        if a != b:
+            names = _ARGN.get(got[0], ())
+            return type_diff(a, b, f'{path + "." if path else ""}{got[0]}.{names[i] if i < len(names) else i}')
+    return 'equal'
 
 
 def real_type(expr):
@@ -255,6 +275,9 @@ def _prims(n):
 def compare_outcomes(ref, real):
     """-> list of findings (prop, clause, message, trait).  prop in {'C01', 'C02'}."""
     out = []
+    if real[0] == 'input-error':
+        return [('C01', 'requires.input_accepted', f'input slot {real[1]} (a well-typed value) is rejected by from_micheline_value: {real[2]}',
+                 f'slot {real[1]}')]
     if ref[0] == 'ok':
         if real[0] != 'ok':
             why = f'{real[1]}: {real[2]}' if real[0] == 'error' else f'FAILWITH {real[2]}'
@@ -270,7 +293,7 @@ def compare_outcomes(ref, real):
             type_ok = rt == t
             if not type_ok:
                 out.append(('C02', 'ensures.slot_type', f'slot {i}: runtime type {rt_expr} != static type `{tstr(t, 9)}`',
-                            f'type {tstr(rt) if rt else "?"} for {tstr(t)}'))
+                            'slot type differs at ' + type_diff(rt, t)))
             rv, why = read_real_value(t, rv_expr)
             if rv is BAD:
                 prop = 'C01' if type_ok else 'C02'
